@@ -131,6 +131,13 @@ class HeapMixin:
             if attr in v.fields:
                 return v.fields[attr]
             if attr == "args":
+                if v.arbitrary:
+                    # an exception raised by a collaborator may carry any number of arguments -- including none (`raise TimeoutError()`,
+                    # MemoryError from an allocation): e.args[0] can raise IndexError
+                    key = "exc.args#" + str(id(v))
+                    if key not in self.run.ghost:
+                        self.run.ghost[key] = self.fresh(("list", ("any",)), self.run.fresh_name("exc.args"))
+                    return self.run.ghost[key]
                 return VTuple([v.msg] if v.msg is not None else [])
             raise E.Unsupported(f"exception attr {attr}")
         if isinstance(v, VReal) and getattr(v, "unit", None) == "timedelta" and attr in ("days", "seconds", "microseconds"):
